@@ -45,7 +45,15 @@ func runOne(ctx context.Context, sp solverSpec, file string, timeoutS int) (stri
 	_ = cmd.Run()
 	dt := time.Since(t0).Seconds()
 	out := ob.String()
-	first := strings.TrimSpace(strings.SplitN(out, "\n", 2)[0])
+	first := ""
+	for _, l := range strings.Split(out, "\n") {
+		l = strings.TrimSpace(l)
+		if l == "" || strings.HasPrefix(l, "WARNING") || strings.HasPrefix(l, "(warning") {
+			continue
+		}
+		first = l
+		break
+	}
 	switch first {
 	case "unsat", "sat", "unknown":
 		return first, out, dt
